@@ -32,6 +32,7 @@ func runC17(c *Ctx) {
 	c17Unquote(c)
 	c17QuotedVerbatim(c)
 	c17TokenizerVerbatim(c)
+	c17SepWholeLine(c)
 }
 
 // c17Unquote implements C17.unquote-multibyte and C17.unquote-errors.
@@ -1012,4 +1013,123 @@ func c17UnquoteDecoded(c *Ctx) {
 		c.Check(rule, fmt.Sprintf("Bunquote|append#%d|from-the-decoded-rune", n), fromRune && !fromInput, ci.Pos(), fmt.Sprintf("derived from the decoded rune: %v; copied from the input: %v", fromRune, fromInput))
 	}
 	c.Floor(rule, 1)
+}
+
+// c17SepWholeLine implements C17.sep-whole-line. The tokenizer first asks detectSep which of the two separators comes
+// first in the line and then splits the SAME bytes on it. If the search looks at a bounded prefix of what is split
+// (seed c17k: "the first field is at most 255 octets", which is false for a quoted name: one octet quotes to up to four
+// bytes), a line whose first separator lies beyond the bound is split on the wrong byte. Decided on SSA: (a) in
+// detectSep the haystack of every bytes.Index-family call, followed back through phis and re-slicings, is the
+// parameter and no re-slicing on the way has an upper bound (other than len of the same value); (b) in fields, the
+// value handed to detectSep is the value handed to bytes.SplitN/Split.
+func c17SepWholeLine(c *Ctx) {
+	rule := "C17.sep-whole-line"
+	c.Rule(rule, "A8 on SSA: in dnsdata.detectSep the haystack of every bytes.Index*/Contains*/Count call is the line parameter with no upper-bounded re-slicing; in dnsdata.fields the value given to detectSep is the value that is split")
+	det := c.Func("dnsdata", "detectSep")
+	c.Examined(det)
+	var bad []string
+	searches := 0
+	var bounded func(v ssa.Value, seen map[ssa.Value]bool) (string, bool)
+	bounded = func(v ssa.Value, seen map[ssa.Value]bool) (string, bool) {
+		if seen[v] {
+			return "", false
+		}
+		seen[v] = true
+		switch x := v.(type) {
+		case *ssa.Slice:
+			if x.High != nil {
+				isLen := false
+				if call, ok := x.High.(*ssa.Call); ok {
+					if b, ok := call.Call.Value.(*ssa.Builtin); ok && b.Name() == "len" && len(call.Call.Args) == 1 && call.Call.Args[0] == x.X {
+						isLen = true
+					}
+				}
+				if !isLen {
+					return c.relPos(x.Pos()), true
+				}
+			}
+			return bounded(x.X, seen)
+		case *ssa.Phi:
+			for _, e := range x.Edges {
+				if at, b := bounded(e, seen); b {
+					return at, true
+				}
+			}
+		case *ssa.ChangeType:
+			return bounded(x.X, seen)
+		case *ssa.Convert:
+			return bounded(x.X, seen)
+		}
+		return "", false
+	}
+	for _, ci := range callInstrs(det) {
+		f := calleeOf(ci.Common())
+		if f == nil || f.Pkg() == nil || (f.Pkg().Path() != "bytes" && f.Pkg().Path() != "strings") {
+			continue
+		}
+		nm := f.Name()
+		if !(strings.HasPrefix(nm, "Index") || strings.HasPrefix(nm, "Contains") || nm == "Count" || strings.HasPrefix(nm, "LastIndex")) || len(ci.Common().Args) == 0 {
+			continue
+		}
+		searches++
+		if at, b := bounded(ci.Common().Args[0], map[ssa.Value]bool{}); b {
+			bad = append(bad, fmt.Sprintf("%s.%s at %s searches a prefix cut at %s", f.Pkg().Path(), nm, c.relPos(ci.Pos()), at))
+		}
+	}
+	// a hand-written scan: a loop over the parameter is not a call; count ranges/index loops as a search so that a
+	// rewrite without library calls does not make the rule vacuous
+	if searches == 0 {
+		for _, b := range det.Blocks {
+			for _, in := range b.Instrs {
+				if ix, ok := in.(*ssa.IndexAddr); ok {
+					if _, isP := rootParam(ix.X, det); isP {
+						searches++
+						if at, bd := bounded(ix.X, map[ssa.Value]bool{}); bd {
+							bad = append(bad, "indexed scan of a prefix cut at "+at)
+						}
+					}
+				}
+			}
+		}
+	}
+	c.Check(rule, fnName(det)+"|haystack-is-whole-line", len(bad) == 0 && searches > 0, det.Pos(), fmt.Sprintf("%d searches; %v", searches, bad))
+
+	fl := c.Func("dnsdata", "fields")
+	c.Examined(fl)
+	var detArg, splitArg ssa.Value
+	for _, ci := range callInstrs(fl) {
+		if sf := ci.Common().StaticCallee(); sf == det && len(ci.Common().Args) > 0 {
+			detArg = ci.Common().Args[0]
+		}
+		if f := calleeOf(ci.Common()); f != nil && f.Pkg() != nil && f.Pkg().Path() == "bytes" && strings.HasPrefix(f.Name(), "Split") && len(ci.Common().Args) > 0 {
+			splitArg = ci.Common().Args[0]
+		}
+	}
+	if detArg != nil && splitArg != nil {
+		c.Check(rule, fnName(fl)+"|detected-range-is-split-range", sameReslice(detArg, splitArg), fl.Pos(), fmt.Sprintf("detectSep(%s) vs Split(%s)", detArg.Name(), splitArg.Name()))
+	}
+}
+
+// sameReslice: identical SSA values, or the same re-slicing (constant or absent bounds) of the same value.
+func sameReslice(a, b ssa.Value) bool {
+	if a == b {
+		return true
+	}
+	x, ok1 := a.(*ssa.Slice)
+	y, ok2 := b.(*ssa.Slice)
+	if !ok1 || !ok2 || !sameReslice(x.X, y.X) {
+		return false
+	}
+	eq := func(p, q ssa.Value) bool {
+		if p == nil || q == nil {
+			return p == nil && q == nil
+		}
+		if p == q {
+			return true
+		}
+		cp, ok1 := p.(*ssa.Const)
+		cq, ok2 := q.(*ssa.Const)
+		return ok1 && ok2 && cp.Value != nil && cq.Value != nil && cp.Value.ExactString() == cq.Value.ExactString()
+	}
+	return eq(x.Low, y.Low) && eq(x.High, y.High) && eq(x.Max, y.Max)
 }
